@@ -3,7 +3,7 @@
 prop=$1; budget=$2; patch=$3
 cd /repo || exit 2
 if [ -n "$(git status --porcelain)" ]; then echo "repo dirty, refusing"; exit 2; fi
-git apply "$patch" || { echo "patch does not apply"; exit 2; }
+case "$patch" in /*) ;; *) patch=/verif/$patch;; esac; git apply "$patch" || { echo "patch does not apply"; exit 2; }
 cd /verif && ./bin/check "$prop" --budget "$budget" --no-evidence 2>&1 | tail -${4:-8}
 rc=$?
 git -C /repo checkout -- . ; git -C /repo clean -fdq
